@@ -271,6 +271,41 @@ def tr_send_message(fn):
             idx = i
     if idx is None:
         die("send_message: `packet = self._build_packet(data)` not found at the top level of the try block", fn)
+    # --- before the try: data = data.asbytes(); cmd = byte_ord(data[<k>])  (IndexError on a short payload)
+    pre = []
+    for st in fn.body:
+        if st is tries[0]:
+            break
+        pre.append(st)
+    pre = strip_doc(pre)
+    if len(stores(fn, "data")) != 2:
+        die("send_message: `data` must be stored exactly twice (asbytes, compression); found %d"
+            % len(stores(fn, "data")), fn)
+    if not pre:
+        die("send_message: statements before the try block not found", fn)
+    t, v = single_assign(pre[0], "data")
+    if not (leaf_key(t) == "data" and isinstance(v, ast.Call) and isinstance(v.func, ast.Attribute)
+            and v.func.attr == "asbytes" and leaf_key(v.func.value) == "data" and not v.args and not v.keywords):
+        die("send_message: expected `data = data.asbytes()` first", pre[0])
+    reads = [st for st in pre[1:] if isinstance(st, ast.Assign) and leaf_key(st.targets[0]) == "cmd"]
+    if len(reads) != 1 or len(stores(fn, "cmd")) != 1:
+        die("send_message: expected one `cmd = byte_ord(data[k])` before the try block", fn)
+    v = reads[0].value
+    if not (isinstance(v, ast.Call) and leaf_key(v.func) == "byte_ord" and len(v.args) == 1 and not v.keywords
+            and isinstance(v.args[0], ast.Subscript) and leaf_key(v.args[0].value) == "data"
+            and isinstance(v.args[0].slice, ast.Constant) and type(v.args[0].slice.value) is int
+            and v.args[0].slice.value >= 0):
+        die("send_message: expected `cmd = byte_ord(data[k])` with a literal k >= 0", reads[0])
+    out["type_byte_index"] = v.args[0].slice.value
+    # --- compression: the statement(s) between `try:` and the packet assignment
+    comp = [st for st in body[:idx] if not (isinstance(st, ast.Expr) and isinstance(st.value, ast.Constant))]
+    if len(comp) != 1 or not isinstance(comp[0], ast.If) or comp[0].orelse or len(comp[0].body) != 1:
+        die("send_message: expected exactly the compression `if` before `packet = self._build_packet(data)`", fn)
+    out["compress_applies"] = Tr(isnone={"self.__compress_engine_out": "(negb has_comp)"}).b(comp[0].test)
+    t, v = single_assign(comp[0].body[0], "data (compression)")
+    if not (leaf_key(t) == "data" and isinstance(v, ast.Call) and leaf_key(v.func) == "self.__compress_engine_out"
+            and len(v.args) == 1 and leaf_key(v.args[0]) == "data" and not v.keywords):
+        die("send_message: expected `data = self.__compress_engine_out(data)`", comp[0].body[0])
     # the cipher `if`: first If after the packet assignment that tests the block engine
     rest = body[idx + 1:]
     isnone = {"self.__block_engine_out": "(negb enc)"}
@@ -588,6 +623,10 @@ def generate(repo):
     w("Definition c03_enc_offset (etm aead : bool) : Z := if etm then %d else if aead then %d else %d."
       % (sm["off_etm"], sm["off_aead"], sm["off_classic"]))
     w("Definition c03_aead_aad_len : Z := %d." % sm["aad_len"])
+    w("(* cmd = byte_ord(data[k]) on the uncompressed message, before anything is framed *)")
+    w("Definition c03_type_byte_index : Z := %d." % sm["type_byte_index"])
+    w("(* test under which data = compress(data) runs before _build_packet(data) *)")
+    w("Definition c03_compress_applies (has_comp : bool) : bool := %s." % sm["compress_applies"])
     w("(* condition under which compute_hmac(...)[:n] is appended, and n *)")
     w("Definition c03_mac_appended (enc aead : bool) : bool := %s." % sm["mac_appended"])
     w("Definition c03_mac_trunc (mac_size : Z) : Z := %s." % sm["mac_trunc"])
